@@ -143,8 +143,16 @@ func (r *refRun) buildScope() {
 			}
 		}
 		if r.d.Has(flags.HelpFlag) {
+			// every command gets a help group of its own; its long name
+			// carries the namespaces assigned to the commands above it
+			name := "help"
+			for j := i; j >= 0; j-- {
+				if ns := r.chain[j].G.Namespace; ns != "" {
+					name = ns + r.d.NsD() + name
+				}
+			}
 			sc.short["h"] = r.helpOpt
-			sc.long["help"] = r.helpOpt
+			sc.long[name] = r.helpOpt
 		}
 	}
 	r.sc = sc
